@@ -35,6 +35,7 @@ type SelEv struct {
 	RID    int    `json:"rid"` // -1: no selected route
 	Path   string `json:"path"`
 	Method string `json:"method"`
+	Attr   string `json:"attr,omitempty"` // request attribute "req-id" as seen by this filter
 }
 
 // Obs collects what handlers, filters and conditions saw for ONE request.
@@ -185,6 +186,13 @@ type BuildOpts struct {
 	OnlySvc    int // >=0: build only this service index
 	WriteBody  bool
 	Switched   bool // configure the other router first, then the wanted one (router switching must be unobservable)
+	Entity     bool // route functions answer with WriteEntity (content negotiation) instead of raw bytes
+}
+
+// EntityDoc is what entity-writing route functions return.
+type EntityDoc struct {
+	XMLName struct{} `json:"-" xml:"doc"`
+	Rid     int      `json:"rid" xml:"rid"`
 }
 
 func DefaultBuild(router string) BuildOpts {
@@ -194,7 +202,8 @@ func DefaultBuild(router string) BuildOpts {
 // MarkerBase is added to a service index to form the route ID of its observability routes.
 const MarkerBase = 100000
 
-func routeFunc(id int) restful.RouteFunction {
+func routeFunc(id int, entity ...bool) restful.RouteFunction {
+	writeEntity := len(entity) > 0 && entity[0]
 	return func(req *restful.Request, resp *restful.Response) {
 		o := ObsOf(req.Request)
 		iv := Invoke{RID: id, Params: map[string]string{}, SelRID: -1}
@@ -212,6 +221,10 @@ func routeFunc(id int) restful.RouteFunction {
 			o.addInvoke(iv)
 		}
 		resp.AddHeader("X-Rid", strconv.Itoa(id))
+		if writeEntity {
+			resp.WriteEntity(EntityDoc{Rid: id})
+			return
+		}
 		resp.WriteHeader(200)
 		resp.Write([]byte("r" + strconv.Itoa(id)))
 	}
@@ -224,6 +237,9 @@ func selFilter(where string) restful.FilterFunction {
 	return func(req *restful.Request, resp *restful.Response, chain *restful.FilterChain) {
 		if o := ObsOf(req.Request); o != nil {
 			ev := SelEv{Where: where, RID: -1, Path: req.SelectedRoutePath()}
+			if a := req.Attribute("req-id"); a != nil {
+				ev.Attr = fmt.Sprint(a)
+			}
 			if sr := req.SelectedRoute(); sr != nil {
 				ev.Method = sr.Method()
 				if v, ok := sr.Metadata()["rid"].(int); ok {
@@ -253,7 +269,7 @@ func condFunc(rid, idx int, hdr string) restful.RouteSelectionConditionFunction 
 
 // AddRoute registers one RouteSpec on a WebService.
 func AddRoute(ws *restful.WebService, rs *RouteSpec, o BuildOpts) {
-	b := ws.Method(rs.Method).Path(rs.Render()).To(routeFunc(rs.ID)).Operation("r"+strconv.Itoa(rs.ID)).Metadata("rid", rs.ID)
+	b := ws.Method(rs.Method).Path(rs.Render()).To(routeFunc(rs.ID, o.Entity)).Operation("r"+strconv.Itoa(rs.ID)).Metadata("rid", rs.ID)
 	if len(rs.Consumes) > 0 {
 		b.Consumes(rs.Consumes...)
 	}
@@ -267,7 +283,7 @@ func AddRoute(ws *restful.WebService, rs *RouteSpec, o BuildOpts) {
 		b.If(condFunc(rs.ID, k, c))
 	}
 	if o.SelFilters {
-		b.Filter(selFilter("route"))
+		b.Filter(selFilter("route:" + strconv.Itoa(rs.ID)))
 	}
 	ws.Route(b)
 }
@@ -280,7 +296,7 @@ func NewService(s *SvcSpec, order []int, o BuildOpts, svcIdx int) *restful.WebSe
 		ws.SetDynamicRoutes(true)
 	}
 	if o.SelFilters {
-		ws.Filter(selFilter("service"))
+		ws.Filter(selFilter("service:" + strconv.Itoa(svcIdx)))
 	}
 	n := len(s.Routes)
 	for k := 0; k < n; k++ {
